@@ -269,6 +269,11 @@ func (fg *FnGen) dispatchCall(fr *Frame, site ssa.Instruction, c *ssa.CallCommon
 		return fg.freshResults(fr, name, d.sig), st
 	}
 	if d.static != nil && fg.inlineable(d.static, fr.depth) && !fg.onStack(fr, d.static) {
+		if _, isClosure := c.Value.(*ssa.MakeClosure); !isClosure {
+			if res, ok := fg.leafApply(fr, d.static, args, st); ok {
+				return res, st
+			}
+		}
 		fg.pendingBindings = nil
 		if mc, ok := c.Value.(*ssa.MakeClosure); ok {
 			for _, b := range mc.Bindings {
@@ -371,7 +376,7 @@ func (fg *FnGen) inline(fr *Frame, f *ssa.Function, args []*Term, st *State, rea
 		for i := len(sub.rets) - 2; i >= 0; i-- {
 			def = Ite(sub.rets[i].reach, sub.rets[i].results[k], def)
 		}
-		if def.Kind == KApp && def.Op == "ite" {
+		if def.Kind == KApp && def.Op == "ite" && !fg.noDefs {
 			c := fg.freshConst(fmt.Sprintf("%s%s_ret%d", fr.prefix, name, k), def.Sort)
 			fg.assume(Eq(c, def))
 			def = c
@@ -389,7 +394,7 @@ func (fg *FnGen) inline(fr *Frame, f *ssa.Function, args []*Term, st *State, rea
 // applyContract: assert requires, havoc modifies, assume ensures.
 func (fg *FnGen) applyContract(fr *Frame, ct *Contract, d callDesc, args []*Term, argTypes []types.Type, st *State, reach *Term,
 	pos token.Pos, name string) ([]*Term, *State) {
-	env := &Env{fg: fg, vars: map[string]CVal{}, st: st, reach: reach}
+	env := &Env{fg: fg, vars: map[string]CVal{}, st: st, reach: reach, pkg: fg.g.pkgByPath[ct.Pkg]}
 	bind := func(n string, i int) {
 		if n != "" && n != "_" && i < len(args) {
 			env.vars[n] = CVal{T: args[i], Ty: argTypes[i]}
@@ -466,8 +471,25 @@ func (fg *FnGen) applyContract(fr *Frame, ct *Contract, d callDesc, args []*Term
 			st2 = fg.havocCall(st, reach)
 		}
 	}
-	res := fg.freshResults(fr, name, d.sig)
-	env2 := &Env{fg: fg, vars: map[string]CVal{}, st: st2, old: env, reach: reach}
+	var res []*Term
+	if ct.Pure && d.static != nil && pureFunctional(argTypes, d.sig) {
+		// a pure function of value-typed arguments is a (deterministic) function of them
+		fg.g.useTrusted("pure functions of value-typed arguments are deterministic: " + d.short)
+		for i := 0; i < d.sig.Results().Len(); i++ {
+			t := d.sig.Results().At(i).Type()
+			r := App(fmt.Sprintf("fn:%s#%d", d.short, i), fg.g.ti.sortOf(t), args...)
+			if len(args) == 0 {
+				r = Const(fmt.Sprintf("fn:%s#%d", d.short, i), fg.g.ti.sortOf(t))
+			}
+			if !fg.noDefs {
+				fg.assumeValid(r, t, True)
+			}
+			res = append(res, r)
+		}
+	} else {
+		res = fg.freshResults(fr, name, d.sig)
+	}
+	env2 := &Env{fg: fg, vars: map[string]CVal{}, st: st2, old: env, reach: reach, pkg: env.pkg}
 	for n, v := range env.vars {
 		env2.vars[n] = v
 	}
